@@ -13,6 +13,7 @@ package publish
 
 // inSync: every record description held in the local map is the provider's current one.
 //@ pure rk(data map[zoneName]idData, k int) int = recKey(cid(data[k].ZoneID), cid(data[k].RecordID))
+//@ pure rkz(data map[zoneName]idData, z zoneName) int = recKey(cid(data[z].ZoneID), cid(data[z].RecordID))
 //@ pure inSync(data map[zoneName]idData) bool = forall(k, has(data, k) ==> pub(rk(data, k)) == cid(data[k].Data.Value)) &&
 //@     forall(k, forall(j, has(data, k) && has(data, j) && rk(data, k) == rk(data, j) ==> k == j))
 
@@ -36,11 +37,19 @@ package publish
 // kept(P, i): number of parameters among P[0..i) that are not ech parameters.
 //@ purerec kept(P []string, i int) int = ite(i <= 0, 0, kept(P, i-1) + ite(isEch(P[i-1]), 0, 1))
 
+// storedEch(v): the ech value (content identity, quotes trimmed) in the parameter string with content identity v: the value of
+// the last "ech=..." entry among the space-separated parameters, the empty string when there is none.
+//@ pure isEchId(p int) bool = cutFound(p, cid("=")) && cutBefore(p, cid("=")) == cid("ech")
+//@ purerec echUpTo(v int, i int) int = ite(i <= 0, cid(""), ite(isEchId(splitPart(v, cid(" "), i-1)), trimOf(cutAfter(splitPart(v, cid(" "), i-1), cid("=")), cid("\"")), echUpTo(v, i-1)))
+//@ pure storedEch(v int) int = echUpTo(v, splitLen(v, cid(" ")))
+
 //@ func CloudflarePublisher.PublishECH returns (results)
 //@   requires cf != nil
 //@   modifies mapOf(cf.zoneIDs), pub, patches(0), lastPatched(0)
 //@   ensures[F:one-result-per-record] len(results) == len(records)
 //@   callsite "cf.updateRecord(" requires[F:only-if-changed] !bytesEq(newValue, oldValue)
+//@   callsite "cf.updateRecord(" requires[F:write-only-if-stale] has(data, zoneName{r.Zone, r.Name}) && cid(newValue) != storedEch(pub(rkz(data, zoneName{r.Zone, r.Name})))
+//@   at "result.Code = StatusNoChange" assert[F:nochange-only-if-current] has(data, zoneName{r.Zone, r.Name}) && cid(newValue) == storedEch(pub(rkz(data, zoneName{r.Zone, r.Name})))
 //@   callsite "cf.updateRecord(" requires[F:requested-record] has(data, zoneName{r.Zone, r.Name}) && bytesEq(arg1, data[zoneName{r.Zone, r.Name}].ZoneID) && bytesEq(arg2, data[zoneName{r.Zone, r.Name}].RecordID)
 //@   callsite "cf.updateRecord(" requires[F:other-fields-kept] arg3.Priority == data[zoneName{r.Zone, r.Name}].Data.Priority && arg3.Target == data[zoneName{r.Zone, r.Name}].Data.Target
 //@   callsite "cf.updateRecord(" requires[F:value] cid(arg3.Value) == joinOf(newParams, cid(" ")) && len(newParams) == kept(params, len(params)) + 1 &&
@@ -52,4 +61,5 @@ package publish
 //@   loop 2 "range params"
 //@     invariant[F:params-kept] len(newParams) == kept(params, ri2) && forall(t, 0, ri2, !isEch(params[t]) ==> newParams[kept(params, t)] == params[t], trig(params[t]))
 //@     invariant[F:kept-below] forall(t, 0, ri2, !isEch(params[t]) ==> 0 <= kept(params, t) && kept(params, t) < kept(params, ri2), trig(params[t]))
+//@     invariant[F:old-value] cid(oldValue) == echUpTo(cid(v.Data.Value), ri2)
 //@     invariant[F:no-ech-kept] forall(t, 0, len(newParams), !isEch(newParams[t]), trig(newParams[t]))
